@@ -4,10 +4,14 @@ LEVEL = "other"
 APP = "routee-compass"
 EP = APP + "/src/plugin/input/default/edge_rtree/edge_rtree_input_plugin.rs"
 wit = KaniUnit("c16_wit", APP, modules=[dict(file=EP, src="c16_edge_tolerance_wit.rs")], harnesses=[])
-wit.native_witnesses = ["c16_wit_edge_tolerance_is_a_distance_on_the_ground", "c16_wit_tree_measure_and_tolerance_use_the_same_location"]
+wit.native_witnesses = ["c16_wit_edge_tolerance_is_a_distance_on_the_ground", "c16_wit_tree_measure_and_tolerance_use_the_same_location", "c16_wit_inside_the_bounding_box_is_not_within_tolerance"]
 em = VerusUnit("c16_edge_match", "c16_edge_match", rlimit=30, paired_kani=(wit, []))
-pr = VerusUnit("c16_process", "c16_process", rlimit=30, paired_kani=(wit, []))
-UNITS = [em, pr, wit]
+vw = KaniUnit("c16_vertex_wit", APP, modules=[dict(file=APP + "/src/plugin/input/default/vertex_rtree/plugin.rs", src="c16_vertex_wit.rs")], harnesses=[])
+vw.native_witnesses = ["c16_wit_vertex_tolerance_is_in_force_with_and_without_a_unit"]
+pr = VerusUnit("c16_process", "c16_process", rlimit=30, paired_kani=(vw, []))
+hw = KaniUnit("c16_haversine_wit", "routee-compass-core", modules=[dict(file="routee-compass-core/src/util/geo/haversine.rs", src="c16_haversine_wit.rs")], harnesses=[])
+hw.native_witnesses = ["c16_wit_great_circle_distance_agrees_with_an_independent_formula"]
+UNITS = [em, pr, wit, vw, hw]
 EXPLANATION = ("The plugins' own logic, NOT the agreement of the r-tree with an exhaustive scan. Decided (Verus, verbatim `process` of BOTH map-matching plugins and VertexRTree::nearest_vertex, callees through their contracts): "
                "vertex plugin -- on success the origin (and, when the query has a destination coordinate, the destination) vertex written into the query is the tree's nearest vertex to THAT coordinate, it passed the tolerance check against THAT coordinate, "
                "and every other field of the query is as it was; a nearest vertex that fails the tolerance check, or an empty tree, is an error and never a match; edge plugin -- the origin / destination edge written into the query is what `search` returned for "
